@@ -84,6 +84,13 @@ def cases(rng, tier):
     for rows_, n_ in (([near], 4), ([[near[0], near[2], near[1]]], 4), ([[Fraction(1, 2), Fraction(1, 2)], near], 8), ([near, [Fraction(1, 2), Fraction(1, 2)]], 8),
                       ([[near[2], near[1], near[0]]], 4), ([[Fraction(1, 4) + e, Fraction(1, 4), Fraction(1, 4), Fraction(1, 4) - e]], 4)):
         yield ("weights", {"rows": [[frac(x) for x in r] for r in rows_], "N": frac(Fraction(n_)), "seed": rng.randrange(1 << 30), "always_oracle": True})
+    # entries between the 1e-14 cut-off and 1e-8 next to large ones, small budgets: they are below 1/N and must not become entries of their own
+    t = Fraction(1, 2 ** 30)
+    for rows_, n_ in (([[Fraction(9, 16), Fraction(7, 16) - 2 * t, t, t]], Fraction(5, 2)),
+                      ([[Fraction(1, 2), Fraction(1, 2) - t, t], [Fraction(3, 4), Fraction(1, 4)]], Fraction(11, 2)),
+                      ([[Fraction(1, 2) - t, Fraction(1, 2), t]], Fraction(2)),
+                      ([[Fraction(5, 8), Fraction(3, 8) - 3 * t, t, t, t]], Fraction(3))):
+        yield ("weights", {"rows": [[frac(x) for x in r] for r in rows_], "N": frac(n_), "seed": rng.randrange(1 << 30), "approx": True, "always_oracle": True})
     # one basis object repeated by identity (`[basis] * L`): the joint minimum is the L-th power of the basis minimum; budgets inside, at and
     # outside the window between the basis minimum and the joint minimum
     for row8, L_, n_ in (([4, 2, 2], 2, 8), ([4, 2, 2], 2, 4), ([4, 2, 2], 2, 16), ([4, 2, 2], 3, 20), ([4, 4], 3, 5), ([2, 2, 2, 2], 2, 6), ([6, 1, 1], 2, 30)):
